@@ -16,7 +16,7 @@ import subprocess
 import sys
 
 VERIF = os.path.dirname(os.path.dirname(os.path.abspath(__file__)))
-ALL = ['C%02d' % i for i in range(1, 21) if i != 12]
+ALL = ['C%02d' % i for i in range(1, 21)]
 
 
 def sh(cmd, cwd=None, env=None, timeout=1800):
